@@ -7,7 +7,10 @@ from debian_inspector import copyright as cr
 ID = 'C12'
 LEVEL = 'proof'
 THEOREMS = [('DebInspector.Thm.C12', ['Props.C12.groups_sound', 'Props.C12.sim', 'Props.C12.rstripLines_blank', 'Props.C12.itemsOK_of_wf',
-                                      'Props.C12.absorb_iff', 'Props.C12.cont_not_decl', 'Props.C12.cont_not_blank', 'Props.C12.blank_before_cont_absorbed'])]
+                                      'Props.C12.absorb_iff', 'Props.C12.cont_not_decl', 'Props.C12.cont_not_blank', 'Props.C12.blank_before_cont_absorbed']),
+            ('DebInspector.Thm.C12P', ['Props.C12P.sound', 'Props.C12P.paras_sound', 'Props.C12P.sim_out', 'Props.C12P.field_rel', 'Props.C12P.addField_rel',
+                                       'Props.C12P.fromFields_rel', 'Props.C12P.mergeRun_rel', 'Props.C12P.mergeUnknown_rel', 'Props.C12P.foldCond_rel',
+                                       'Props.C12P.fold_rel', 'Props.C12P.foldLoop_rel', 'Props.C12P.foldLicense_rel', 'Props.C12P.sameParas_of'])]
 TRUSTED = [
     'Lean 4.33.0 kernel',
     'reading of the property as Props.C12.holdsOn (groups equal up to the text of the replaced markers; same classes, keys, ranges and words)',
@@ -18,13 +21,17 @@ ASSUMPTIONS = ['documents are lists of declaration / continuation / empty lines;
 RULE = ('DEP-5-like and control-like documents with " ." markers in license, comment, description and extra fields; every subset-sample of markers followed by a continuation line, '
         'replaced by empty / space / spaces / tab lines; plus the negative family (two adjacent markers both blanked) where model and implementation must agree that the paragraph splits. '
         'non-trivial = at least one marker replaced')
-TECHNIQUE = ('Lean 4 theorem Props.C12.groups_sound: for every well-formed document and every admissible set of blanked markers the line-tracking parser reports the same groups, fields and line numbers (simulation of the two runs of the loop) '
-             '+ executable specification (groups and copyright paragraphs: classes, keys, words) on every observation + correspondence')
-LEVEL_TEXT = ('Props.C12.groups_sound: for every well-formed document (every non-empty line a declaration or a continuation line, continuation lines after non-empty lines; any number of lines, paragraphs and fields) and every set of " ." markers '
-              'each followed by a continuation line and replaced by an empty or white-space-only line (any Unicode white space, no two adjacent), the model of get_paragraphs_as_field_groups on the blanked text returns exactly what it returns on the original '
-              'with the text of the replaced lines emptied: same paragraphs, fields, line numbers and other lines. Proved in Lean 4 by a simulation of the two runs of the loop (sim: the states stay related, a blanked line is absorbed exactly where the marker was a continuation line) '
-              'and rstripLines_blank (trailing-blank trimming commutes with the blanking because every blanked line has a later non-blank line in its field). '
-              'The copyright-object half (same paragraph classes, keys and words) is decided by the executable specification on every implementation observation and by correspondence, not by theorem.')
+TECHNIQUE = ('Lean 4 theorem Props.C12P.sound (both halves, for every well-formed document and every admissible set of blanked markers): simulation of the two runs of the line-tracking loop '
+             '(groups_sound) and a relational proof through from_fields, the merge of unknown paragraphs and the fold into an empty license (paras_sound) '
+             '+ executable specification on every implementation observation + correspondence with the hand models')
+LEVEL_TEXT = ('Props.C12P.sound: for every well-formed document (every non-empty line a declaration or a continuation line, continuation lines after non-empty lines; any number of lines, paragraphs and fields) and every set of " ." markers '
+              'that are followed by a continuation line, replaced by empty or white-space-only lines: (1) Props.C12.groups_sound - the line-tracking parser reports the same paragraphs, fields and line numbers, only the text of the replaced '
+              'lines differs (sim: a simulation between the two runs of the loop; rstripLines_blank: trimming trailing blank lines commutes with the replacement because every replaced line is followed by a line that is neither replaced nor blank); '
+              '(2) Props.C12P.paras_sound - the copyright objects built from the two texts have the same number of paragraphs, of the same classes, with the same keys and the same words under every key. The second half is a relational proof '
+              'through the whole pipeline: sim_out (in the original run a replaced line holds the marker and its field has a line that is neither replaced nor blank), field_rel (the two values of a field are empty together, and otherwise '
+              'start with a non-space character and have the same words), addField_rel / fromFields_rel (the renaming loop takes the same decisions; typed values have the same words: words_dumps_fromValue; whether a license paragraph is '
+              'empty depends only on which fields are present), mergeRun_rel / mergeUnknown_rel (the same runs are merged; the merged texts have the same words and are empty together), foldCond_rel / fold_rel / foldLoop_rel / foldLicense_rel '
+              '(the same licenses are folded). The object is always built (Props.C07.fromText_ok).')
 LEVEL_NOTE = ('Trusted: Lean kernel; axioms propext, Classical.choice, Quot.sound only for the registered theorems; the comparison clauses rest on specification evaluation + correspondence.')
 
 REPL = ['', ' ', '   ', '\t', ' \t ', '\x0c', '\x0b', '\xa0', '\u3000', ' \x0c ', '\u2028', '\x85', '\x1c', '\u2003\u200a']
